@@ -1107,6 +1107,7 @@ class Pool:
         self._pool = []
         self._poolctrl = {}
         self._on_ready_counters = {}
+        self._gone_workers = {}     # pid -> exit code of recently reaped workers
         self.putlocks = putlocks
         self._putlock = semaphore or LaxBoundedSemaphore(self._processes)
         for i in range(self._processes):
@@ -1282,6 +1283,13 @@ class Pool:
                 self._poolctrl.pop(worker.pid, None)
                 self._on_ready_counters.pop(worker.pid, None)
         if cleaned:
+            # remembered: the accept message of a job may be consumed only
+            # after its worker was reaped, so a later pass must still be
+            # able to see that the job's owner is gone, and why.
+            self._gone_workers.update(exitcodes)
+            while len(self._gone_workers) > 256:
+                self._gone_workers.pop(next(iter(self._gone_workers)))
+        if cleaned or self._gone_workers:
             all_pids = [w.pid for w in self._pool]
             for job in list(self._cache.values()):
                 acked_by_gone = next(
@@ -1296,7 +1304,9 @@ class Pool:
                     # some other worker exiting, no longer knows the exit
                     # status and must not restart the grace period.)
                     if not job.ready() and not job._worker_lost:
-                        exitcode = exitcodes.get(acked_by_gone) or 0
+                        exitcode = exitcodes.get(
+                            acked_by_gone,
+                            self._gone_workers.get(acked_by_gone)) or 0
                         proc = cleaned.get(acked_by_gone)
                         job._lost_worker_pid = acked_by_gone
                         if proc and getattr(proc, '_job_terminated', False):
